@@ -534,3 +534,16 @@ func (e *End) DeadlineStats() (sets, timeouts int) {
 	defer e.dmu.Unlock()
 	return e.WDeadlineSets, e.WTimeouts
 }
+
+// Frag delivers at most Max bytes per Read (a stream that hands data over in small segments).
+type Frag struct {
+	net.Conn
+	Max int
+}
+
+func (f *Frag) Read(p []byte) (int, error) {
+	if len(p) > f.Max {
+		p = p[:f.Max]
+	}
+	return f.Conn.Read(p)
+}
